@@ -65,6 +65,7 @@ var exportShims = map[string]string{
 	"bcs/consensus/xpoa/export_verif.go":                       "export/xpoa.go",
 	"bcs/ledger/xledger/state/export_verif.go":                 "export/state.go",
 	"kernel/network/p2p/export_verif.go":                       "export/p2p.go",
+	"kernel/engines/xuperos/export_verif.go":                   "export/xuperos.go",
 	"bcs/ledger/xledger/state/utxo/export_verif.go":            "export/utxo.go",
 }
 
